@@ -112,6 +112,12 @@ impl<'r> SrcGen<'r> {
             8 => self.builtin(),
             0 => V::Int(small_int(self.r)).render(),
             1 => V::Str(word(self.r)).render(),
+            2 if self.r.chance(1, 12) => {
+                // a loop-variable name read where no macro binds it: unbound (or whatever the
+                // caller bound under that name), whatever ran before
+                let n = *self.r.pick(&["v", "k", "e", "acc"]);
+                if self.r.chance(1, 2) { format!("has({})", n) } else { n.to_string() }
+            }
             2 => self.r.pick(&VARS).to_string(),
             3 => self.r.pick(&self.progs).clone(),
             4 => self.r.pick(&self.scope).clone(),
@@ -1019,6 +1025,11 @@ enum Sc {
     ManyAbsorbed { form: usize, k: usize, n: usize },
     /// two contexts hold different programs under the same names
     TwoContexts,
+    /// a stored program referenced from a macro body reads the loop variable (it is evaluated
+    /// under the same bindings, of which the loop variable is one)
+    ProgReadsLoopVar { macro_kind: usize },
+    /// variables named like built-in functions / macros, bound from JSON and directly
+    JsonCallableNames,
     /// a bound function shares its name with a stored program (`prog`) or a bound variable:
     /// in value position the name is the program / variable, in call position the function
     FuncSharesName { prog: bool },
@@ -1134,6 +1145,10 @@ fn scenarios(thorough: bool) -> Vec<Sc> {
         }
     }
     v.push(Sc::TwoContexts);
+    for k in 0..4 {
+        v.push(Sc::ProgReadsLoopVar { macro_kind: k });
+    }
+    v.push(Sc::JsonCallableNames);
     v.push(Sc::FuncSharesName { prog: true });
     v.push(Sc::FuncSharesName { prog: false });
     v.push(Sc::Rebind);
@@ -1379,6 +1394,47 @@ fn build12(sc: &Sc, seed: u64) -> WorldCase {
             let src = format!("({}) ? 'no' : c0", parts.join(" || "));
             add(&mut ops, "main", src);
             expect(&mut ops, &mut r, "main", Want::Val(V::Str(expected)));
+        }
+        Sc::ProgReadsLoopVar { macro_kind } => {
+            label = format!("program-reads-loop-variable:{}", ["map", "filter", "map3", "nested"][*macro_kind]);
+            let t = format!("q#{}:", uniq);
+            add(&mut ops, "q", format!("'{}' + v", t));
+            add(&mut ops, "r2", "q + '!'".to_string());
+            let el = |s: &str| V::Str(format!("{}{}", t, s));
+            let (src, want) = match macro_kind {
+                0 => ("['a', 'b', 'c'].map(v, q)".to_string(), V::List(vec![el("a"), el("b"), el("c")])),
+                1 => (format!("['a', 'b', 'c'].filter(v, q != '{}b')", t), V::List(vec![V::s("a"), V::s("c")])),
+                2 => (format!("['a', 'b', 'c'].map(v, q != '{}a', r2)", t), V::List(vec![V::Str(format!("{}b!", t)), V::Str(format!("{}c!", t))])),
+                _ => ("[['a'], ['b', 'c']].map(l, l.map(v, r2))".to_string(), V::List(vec![V::List(vec![V::Str(format!("{}a!", t))]), V::List(vec![V::Str(format!("{}b!", t)), V::Str(format!("{}c!", t))])])),
+            };
+            // outside a macro the name means whatever the caller bound
+            bind(&mut ops, "v", V::s("outer"));
+            add(&mut ops, "main", src);
+            expect(&mut ops, &mut r, "main", Want::Val(want));
+            expect(&mut ops, &mut r, "q", Want::Val(el("outer")));
+        }
+        Sc::JsonCallableNames => {
+            label = "json-binding-of-callable-names".into();
+            let names = ["size", "max", "filter", "now", "sort", "all", "min", "contains"];
+            let mut vals = BTreeMap::new();
+            let mut want = vec![];
+            for n in names.iter() {
+                let v = tag("param", n, uniq);
+                vals.insert(n.to_string(), v.clone());
+                want.push(v);
+            }
+            if r.chance(1, 2) {
+                ops.push(Op { t: t_exec, k: OpK::BindJson { b: 0, vals } });
+            } else {
+                // directly first, then again from JSON with other values: the later binding wins
+                for (n, v) in vals.iter() {
+                    bind(&mut ops, n, V::s("earlier"));
+                    let _ = v;
+                }
+                ops.push(Op { t: t_exec, k: OpK::BindJson { b: 0, vals } });
+            }
+            add(&mut ops, "main", format!("[{}]", names.join(", ")));
+            expect(&mut ops, &mut r, "main", Want::Val(V::List(want)));
         }
         Sc::FuncSharesName { prog } => {
             label = format!("function-shares-name-with-{}", if *prog { "program" } else { "variable" });
